@@ -160,7 +160,7 @@ pub const DELTA: [f64; 8] = [0.99, 0.9, 0.5, 0.3, 0.1, 0.03, 0.01, 0.003];
 
 fn cells(tier: Tier, seed: u64) -> Vec<Cell> {
     let mut v = vec![];
-    let seeds = tier.pick(600u32, 3000u32);
+    let seeds = tier.pick(600u32, 20_000u32);
     for &eps in &EPS {
         for &delta in &DELTA {
             for shape in [Shape::Heavy, Shape::Zipf, Shape::Uniform] {
@@ -174,10 +174,10 @@ fn cells(tier: Tier, seed: u64) -> Vec<Cell> {
     if tier == Tier::Thorough {
         // random cells from the region delta >= eps/2 (below 0.85*delta at design time)
         let mut g = SplitMix64(mix_str(seed, "c08-random"));
-        for _ in 0..60 {
+        for _ in 0..400 {
             let eps = 10f64.powf(-0.3 - 2.2 * g.f64());
             let delta = (eps / 2.0) + (0.98 - eps / 2.0) * g.f64().powi(2);
-            let c = Cell { eps: (eps * 1e4).round() / 1e4, delta: (delta * 1e4).round() / 1e4, shape: Shape::Heavy, seeds: 400, seed: 0 };
+            let c = Cell { eps: (eps * 1e4).round() / 1e4, delta: (delta * 1e4).round() / 1e4, shape: Shape::Heavy, seeds: 2000, seed: 0 };
             let s = mix_str(seed, &c.sig());
             v.push(Cell { seed: s, ..c });
         }
